@@ -172,7 +172,7 @@ fn gen_node(rng: &mut Rng, ty: &Ty) -> Node {
         }
         Ty::Any | Ty::Ignored => sc("anything", Sty::Plain),
         Ty::Spanned(t) => gen_node(rng, t),
-        Ty::Tree => sc("anything", Sty::Plain),
+        Ty::Tree | Ty::FailCustom | Ty::FailInvalid => sc("anything", Sty::Plain),
     }
 }
 fn text_is_empty(t: &str) -> bool {
@@ -446,7 +446,7 @@ fn interp(ty: &Ty, n: &Node) -> Result<Option<Val>, ()> {
                 _ => return Err(()),
             }
         }
-        Ty::Any | Ty::Ignored | Ty::Spanned(_) | Ty::Tree => return Ok(None),
+        Ty::Any | Ty::Ignored | Ty::Spanned(_) | Ty::Tree | Ty::FailCustom | Ty::FailInvalid => return Ok(None),
     }))
 }
 
